@@ -51,7 +51,7 @@ Print Assumptions C12_pkce_plain_limit.
 (* ---- the product.
    Full statement (FALSE of the faithful model of the current tree, witnesses below):
      Theorem C12_product : forall c i, in_product c -> completes c i = true.
-   What holds: a flow fails to complete exactly when one of nine NAMED limits applies (limits c i), for every
+   What holds: a flow fails to complete exactly when one of ten NAMED limits applies (limits c i), for every
    configuration of the product and every input; in particular every cell outside the limits completes. *)
 Theorem C12_product_char : forall c i, in_product c -> (flow_outcome c i = Completed <-> limits c i = false).
 Proof. exact product_char. Qed.
@@ -61,7 +61,7 @@ Theorem C12_product_partial : forall c i, in_product c -> limits c i = false -> 
 Proof. exact product_partial. Qed.
 Print Assumptions C12_product_partial.
 
-(* the independence / factorisation lemma behind it: the checks of one flow regroup into nine groups, each a
+(* the independence / factorisation lemma behind it: the checks of one flow regroup into ten groups, each a
    function of a few dimensions only *)
 Theorem C12_factor : forall c i,
   forallb snd (checks c i) =
@@ -72,14 +72,15 @@ Theorem C12_factor : forall c i,
     && par_claims_ok (c_tr c) (i_claims i)
     && grpC_ok (c_rt c) (c_idt_sig c)
     && idt_hashes_ok (c_rt c)
+    && (idt_enc_front_ok (c_rt c) (c_idt_enc c) && idt_enc_token_ok (c_rt c) (c_idt_enc c))
     && ui_sig_ok (c_rt c) (c_ui_sig c)
     && ui_enc_ok (c_rt c) (c_ui_enc c) (i_secret_len i).
 Proof. exact checks_factor. Qed.
 Print Assumptions C12_factor.
 
-(* token formats and the ID Token encryption setting never decide completion *)
-Theorem C12_independent : forall rt rm auth a1 r1 a2 r2 sig e1 e2 us ue tr p i,
-  flow_outcome (mkCfg rt rm auth a1 r1 sig e1 us ue tr p) i = flow_outcome (mkCfg rt rm auth a2 r2 sig e2 us ue tr p) i.
+(* token formats never decide completion *)
+Theorem C12_independent : forall rt rm auth a1 r1 a2 r2 sig e us ue tr p i,
+  flow_outcome (mkCfg rt rm auth a1 r1 sig e us ue tr p) i = flow_outcome (mkCfg rt rm auth a2 r2 sig e us ue tr p) i.
 Proof. exact outcome_independent. Qed.
 Print Assumptions C12_independent.
 
@@ -97,7 +98,7 @@ Proof. split; [in_prod|split; vm_compute; reflexivity]. Qed.
 
 Example C12_nonvacuous_rich :
   let c := mkCfg (PS "code id_token") (Some (PS "form_post")) (PS "private_key_jwt") true true (PS "ES384")
-                 (Some (PS "RSA-OAEP", PS "A256GCM")) (Some (PS "EdDSA")) (Some (PS "ECDH-ES+A128KW", PS "A128CBC-HS256"))
+                 None (Some (PS "EdDSA")) (Some (PS "ECDH-ES+A128KW", PS "A128CBC-HS256"))
                  TRequest (Some (PS "S512")) in
   in_product c /\ flow_outcome c (mkInp true 56 true true false) = Completed.
 Proof. split; [in_prod|vm_compute; reflexivity]. Qed.
@@ -162,11 +163,20 @@ Theorem C12_refuted_par_claims :
 Proof. split; [in_prod|split; vm_compute; reflexivity]. Qed.
 Print Assumptions C12_refuted_par_claims.
 
-(* the ID Token encryption a client registers is never applied by the provider (the flow completes with a
-   signed-only ID Token): a limit of another kind, reported by the driver's artefact oracle *)
+(* the ID Token encryption a client registers is never applied by the provider, and the relying party insists on
+   what it registered: the signed-only ID Token is rejected where it arrives *)
 Theorem C12_idt_enc_ignored : forall c, idt_encrypted c = false.
 Proof. reflexivity. Qed.
 Print Assumptions C12_idt_enc_ignored.
+
+Theorem C12_refuted_idt_enc :
+  let c := mkCfg (PS "code") None (PS "client_secret_basic") false false (PS "RS256") (Some (PS "RSA-OAEP", PS "A128CBC-HS256"))
+                 None None TPlain None in
+  let c' := mkCfg (PS "token") None (PS "client_secret_basic") false false (PS "RS256") (Some (PS "RSA-OAEP", PS "A128CBC-HS256"))
+                 None None TPlain None in
+  in_product c /\ flow_outcome c base_inp = FailAt RpFinalize /\ in_product c' /\ flow_outcome c' base_inp = Completed.
+Proof. split; [in_prod|split; [vm_compute; reflexivity|split; [in_prod|vm_compute; reflexivity]]]. Qed.
+Print Assumptions C12_refuted_idt_enc.
 
 (* ---- artefacts: for EVERY response type both halves can be configured with, what the relying party reads from the
         authorization response is what the provider puts there (create_authn_response probed on a real provider;
